@@ -31,7 +31,7 @@ func (e *engine) checkEqualLine(worker int, raw []byte) error {
 		return err
 	}
 	e.rep.Count("transitions", 1)
-	if lib.Dialect == "v4" {
+	if lib.Dialect == "v4" && e.prop != "C04" {
 		// C19: object- and array-rooted texts that contain no escaped characters
 		container := func(v *jsonread.Value) bool { return v.T == "obj" || v.T == "arr" }
 		if !container(a) || !container(b) || hasAwkwardString(a) || hasAwkwardString(b) {
